@@ -36,6 +36,8 @@ class SymBackend:
     """the current source run by the interpreter"""
     def __init__(self, I): self.I = I
     def T(self, **kw): return self.I.construct("Transition", [], kw)
+    def Tpos(self, *args): return self.I.construct("Transition", list(args), {})
+    def enum(self, name): return self.I.enums["TransitionType"][name]
     def E(self, *args, **kw): return self.I.construct("Event", list(args), kw)
     def new_model(self): return new_model(self.I)
     def call(self, m, name, arg):
@@ -110,6 +112,18 @@ def scenarios(I):
             sc.append(("add_birth_death", k, lambda m, kw=kw: method(I, m, "add_birth_death")(T(I, equation="r", **kw))))
             sc.append(("birth_death_list setter", k, lambda m, kw=kw: setter(I, m, "birth_death_list")([T(I, equation="r", **kw)])))
             sc.append(("birth_death_list setter, solitary", k, lambda m, kw=kw: setter(I, m, "birth_death_list")(T(I, equation="r", **kw))))
+    # the transition type in every spelling the constructor documents, and as the enum member
+    spell = {"PT": ["t", "T", "between states", "Between States"], "PD": ["d", "D", "death process"], "PBd": ["b", "B", "birth process"]}
+    for k, sps in spell.items():
+        for sp in sps:
+            sc.append(("type spelled '%s'" % sp, k, lambda m, k=k, sp=sp: method(I, m, "add_event")(
+                E(I, rate="r", transition_list=[T(I, **dict(KINDS[k], transition_type=sp))]))))
+        sc.append(("type given as enum member", k, lambda m, k=k: method(I, m, "add_event")(
+            E(I, rate="r", transition_list=[T(I, **dict(KINDS[k], transition_type=I.enum(KINDS[k]["transition_type"])))]))))
+    # positional construction in the documented order (origin, equation, transition_type, destination, magnitude)
+    sc.append(("positional Transition", "PT", lambda m: method(I, m, "add_event")(I.Tpos("o", "r", "T", "d", "m0"))))
+    sc.append(("positional Transition", "PD", lambda m: method(I, m, "add_event")(I.Tpos("o", "r", "D", None, "m0"))))
+    sc.append(("positional Transition", "PBd", lambda m: method(I, m, "add_event")(I.Tpos(None, "r", "B", "d", "m0"))))
     # an event of two transitions: rate on the Event, or carried by exactly one member (either position)
     two = lambda e0=None, e1=None: [T(I, origin="o", destination="d", transition_type="T", magnitude="m0", **({"equation": e0} if e0 else {})),
                                     T(I, origin="d", transition_type="D", magnitude="m1", **({"equation": e1} if e1 else {}))]
